@@ -19,7 +19,7 @@ import time
 import traceback
 
 VERIF = os.path.dirname(os.path.dirname(os.path.abspath(__file__)))
-LEAN = os.path.join(VERIF, 'lean')
+LEAN = os.environ.get('DINO_LEAN_DIR') or os.path.join(VERIF, 'lean')
 WORK = os.path.join(VERIF, 'work')
 EVID = os.path.join(VERIF, 'evidence')
 REPO = os.environ.get('DINOSAUR_REPO', '/repo')
@@ -115,7 +115,7 @@ def univec(s: str):
 @contextlib.contextmanager
 def lean_lock():
   os.makedirs(WORK, exist_ok=True)
-  with open(os.path.join(WORK, 'lean.lock'), 'w') as f:
+  with open(os.path.join(WORK, 'lean_' + hashlib.sha1(LEAN.encode()).hexdigest()[:8] + '.lock'), 'w') as f:
     fcntl.flock(f, fcntl.LOCK_EX)
     try:
       yield
@@ -223,6 +223,7 @@ class Ctx:
     apath = os.path.join(WORK, f'Audit_{self.pid}.lean')
     write_if_changed(apath, body)
     self.checker_cmds.append(f'cd lean && lake env lean ../work/Audit_{self.pid}.lean')
+    os.makedirs(WORK, exist_ok=True)
     with lean_lock():
       rc, out, err = sh(['lake', 'env', 'lean', apath], cwd=LEAN, timeout=1200)
     txt = out + err
